@@ -35,10 +35,7 @@ type propSpec struct {
 	MustProbes []string
 }
 
-var pristineReg map[string]struct {
-	Profile psatoken.IProfile
-	JSONTag string
-}
+var pristineReg any
 
 var worlds = map[string]World{}
 
